@@ -232,8 +232,8 @@ def run_property(modname: str, tier: str, seed: int, jobs: Optional[int] = None)
         return 1
     if inconclusive:
         print(f"INCONCLUSIVE property={pid}")
-        for m in inconclusive[:12]:
-            print("  " + m.replace("\n", "\n    "))
+        for m in inconclusive[:8]:
+            print("  " + m[:700].replace("\n", "\n    "))
         return 2
     print(f"OK property={pid}")
     return 0
